@@ -90,9 +90,190 @@ def search(seed=0, **_):
     return None
 
 
+def print_order_obligations(world):
+    """print(parse(text)) can only parse back if the printer emits the parts of a node in the order
+    in which the parser expects them.  Both orders are read off the current tree, nothing is
+    executed: for every `XNode(k=..., ...)` constructor call in a Parser method, the keywords whose
+    values are parsed, in the order of those parses; for the printer's leave_<kind>, the order in
+    which `node.<field>` contributes to the returned string (locals expanded where they are used).
+    The two must agree on the fields both mention.  Finite, syntactic; one obligation per kind."""
+    import ast as pyast
+    from graphql.language import ast as gast
+    _m, tree, _ = world.load_module("graphql.language.parser")
+    _m2, ptree, _ = world.load_module("graphql.language.printer")
+    cls = next(n for n in tree.body if isinstance(n, pyast.ClassDef) and n.name == "Parser")
+    pcls = next(n for n in ptree.body if isinstance(n, pyast.ClassDef) and n.name == "PrintAstVisitor")
+
+    def parses(e):
+        return any(isinstance(x, pyast.Call) and isinstance(x.func, pyast.Attribute)
+                   and isinstance(x.func.value, pyast.Name) and x.func.value.id == "self"
+                   for x in pyast.walk(e))
+    parse_order = {}
+    for fn in [n for n in cls.body if isinstance(n, pyast.FunctionDef)]:
+        when = {}
+        stmts = sorted((n for n in pyast.walk(fn) if isinstance(n, (pyast.Assign, pyast.AnnAssign))
+                        and getattr(n, "value", None) is not None), key=lambda n: (n.lineno, n.col_offset))
+        for st in stmts:
+            tgt = st.targets[0] if isinstance(st, pyast.Assign) else st.target
+            if not isinstance(tgt, pyast.Name) or tgt.id in when:
+                continue
+            if parses(st.value):
+                when[tgt.id] = (st.value.lineno, st.value.col_offset)
+            elif isinstance(st.value, pyast.Name) and st.value.id in when:
+                when[tgt.id] = when[st.value.id]
+        for call in [n for n in pyast.walk(fn) if isinstance(n, pyast.Call)
+                     and isinstance(n.func, pyast.Name) and n.func.id.endswith("Node")]:
+            kind = getattr(getattr(gast, call.func.id, None), "kind", None)
+            timed = []
+            for kw in call.keywords:
+                v, t = kw.value, None
+                if isinstance(v, pyast.Name):
+                    t = when.get(v.id)
+                elif parses(v):
+                    sub = [x for x in pyast.walk(v) if isinstance(x, pyast.Call) and isinstance(x.func, pyast.Attribute)
+                           and isinstance(x.func.value, pyast.Name) and x.func.value.id == "self"]
+                    t = min((x.lineno, x.col_offset) for x in sub)
+                if t is not None and kw.arg != "loc":
+                    timed.append((t, kw.arg))
+            parse_order.setdefault(kind, []).append((fn.name, call.func.id, [k for _, k in sorted(timed)]))
+
+    def print_order(fn):
+        assigns = {}
+        for st in pyast.walk(fn):
+            if isinstance(st, pyast.Assign) and isinstance(st.targets[0], pyast.Name):
+                assigns.setdefault(st.targets[0].id, []).append(st.value)
+            elif isinstance(st, pyast.AugAssign) and isinstance(st.target, pyast.Name):
+                assigns.setdefault(st.target.id, []).append(st.value)
+        rets = [r.value for r in pyast.walk(fn) if isinstance(r, pyast.Return) and r.value is not None]
+        out = []
+
+        def emit(e, depth=0):
+            for x in sorted((x for x in pyast.walk(e) if isinstance(x, (pyast.Attribute, pyast.Name))),
+                            key=lambda x: (x.lineno, x.col_offset)):
+                if isinstance(x, pyast.Attribute) and isinstance(x.value, pyast.Name) and x.value.id == "node":
+                    if x.attr not in out:
+                        out.append(x.attr)
+                elif isinstance(x, pyast.Name) and x.id in assigns and depth < 4:
+                    for v in assigns[x.id]:
+                        emit(v, depth + 1)
+        for r in rets[-1:]:
+            emit(r)
+        return out
+    obls = []
+    for fn in [n for n in pcls.body if isinstance(n, pyast.FunctionDef) and n.name.startswith("leave_")]:
+        kind = fn.name[6:]
+        mentions = print_order(fn)
+        for (pf, nc, po) in parse_order.get(kind, []):
+            pm = [m for m in mentions if m in po]
+            pp = [k for k in po if k in mentions]
+            ok = pm == pp
+            obls.append({"func": "graphql.language.printer.PrintAstVisitor." + fn.name, "kind": "FINITE",
+                         "text": f"{kind}: the printer emits the parts in the order Parser.{pf} parses them ({nc})",
+                         "status": "discharged" if ok else "refuted", "backend": "finite",
+                         "detail": f"print order {pm}, parse order {pp}",
+                         "model": None if ok else {"kind": kind, "print_order": pm, "parse_order": pp}})
+    return obls
+
+
+ORDER_REPLAY = r'''
+import itertools, json
+from graphql import parse, print_ast
+from graphql.utilities import ast_to_dict
+OPTS = {"experimental_fragment_arguments": True, "experimental_directives_on_directive_definitions": True}
+# constructs with several optional clauses, the clauses in every order: whichever order parses must
+# survive print -> parse
+PARTS = [
+    ("directive @foo%s on FIELD", [" @bar", " repeatable", "(a: Int)"]),
+    ("{ ...F%s }", ["(a: 1)", " @d"]),
+    ("{ f%s }", ["(a: 1)", " @d", " { g }"]),
+    ("query Q%s { f }", ["($v: Int)", " @d"]),
+    ("fragment F%s on T { f }", ["($v: Int)"]),
+    ("fragment F on T%s { f }", [" @d"]),
+    ("type T%s { f: Int }", [" implements I", " @d"]),
+    ("extend type T%s", [" implements I", " @d", " { f: Int }"]),
+    ("type T { f%s: Int%s }", ["(a: Int = 1 @d)"], [" @d"]),
+    ("input I { f: Int%s }", [" = 1", " @d"]),
+    ("query ($v: Int%s) { f }", [" = 1", " @d"]),
+    ("enum E%s { A%s }", [" @d"], [" @e"]),
+    ("scalar S%s", [" @d"]), ("union U%s = A | B", [" @d"]), ("schema%s { query: Q }", [" @d"]),
+    ("interface I%s { f: Int }", [" implements J", " @d"]),
+    ('"desc" directive @foo%s on FIELD | QUERY', [" @bar", " repeatable"]),
+]
+bad = None
+for spec in PARTS:
+    tmpl, groups = spec[0], spec[1:]
+    choices = []
+    for g in groups:
+        alts = []
+        for r in range(len(g) + 1):
+            for perm in itertools.permutations(g, r):
+                alts.append("".join(perm))
+        choices.append(alts)
+    for combo in itertools.product(*choices):
+        text = tmpl % combo
+        try:
+            doc = parse(text, no_location=True, **OPTS)
+        except Exception:
+            continue
+        printed = print_ast(doc)
+        try:
+            again = parse(printed, no_location=True, **OPTS)
+        except Exception as e:
+            bad = {"input": text, "printed": printed, "observed": f"the printed text does not parse: {e}"}
+            break
+        if ast_to_dict(again) != ast_to_dict(doc):
+            bad = {"input": text, "printed": printed, "observed": "print -> parse gives a different tree"}
+            break
+    if bad:
+        break
+if not bad:
+    # trees built by hand (a source for them may not parse any more): print -> parse must give them back
+    from graphql.language import (ArgumentNode, DirectiveNode, DirectiveDefinitionNode, DocumentNode,
+                                  FieldNode, FragmentSpreadNode, IntValueNode, NameNode,
+                                  OperationDefinitionNode, OperationType, SelectionSetNode)
+    nm = lambda s: NameNode(value=s)
+    arg = ArgumentNode(name=nm("a"), value=IntValueNode(value="1"))
+    dr = DirectiveNode(name=nm("d"), arguments=())
+    spread = FragmentSpreadNode(name=nm("F"), arguments=(arg,), directives=(dr,))
+    field = FieldNode(name=nm("f"), alias=nm("x"), arguments=(arg,), directives=(dr,),
+                      selection_set=SelectionSetNode(selections=(spread,)))
+    op = OperationDefinitionNode(operation=OperationType.QUERY, name=nm("Q"), variable_definitions=(),
+                                 directives=(dr,), selection_set=SelectionSetNode(selections=(field,)))
+    dd = DirectiveDefinitionNode(name=nm("foo"), arguments=(), directives=(dr,), repeatable=True,
+                                 locations=(nm("FIELD"),))
+    for tree in (DocumentNode(definitions=(op,)), DocumentNode(definitions=(dd,))):
+        printed = print_ast(tree)
+        try:
+            again = parse(printed, no_location=True, **OPTS)
+        except Exception as e:
+            bad = {"input": "a tree built from node constructors: " + printed.replace("\n", " "),
+                   "printed": printed, "observed": f"the printed text does not parse: {e}"}
+            break
+        if print_ast(again) != printed:
+            bad = {"input": "a tree built from node constructors", "printed": printed,
+                   "observed": "print -> parse -> print gives " + print_ast(again)}
+            break
+print("REPLAY " + json.dumps(bad))
+'''
+
+
+def replay_extra(o):
+    if "the printer emits the parts in the order" not in o.get("text", ""):
+        return None
+    rc, outp = run_native(ORDER_REPLAY)
+    for line in outp.splitlines():
+        if line.startswith("REPLAY "):
+            import json
+            bad = json.loads(line[7:])
+            if bad:
+                return dict(bad, confirmed=True, entry="parse + print_ast + parse (experimental syntaxes on)")
+            return {"confirmed": False}
+    return {"confirmed": False, "error": outp[-500:]}
+
+
 def extra_obligations(world, tier, seed):
     import subprocess, os, time
-    out = lemma_obligations()
+    out = lemma_obligations() + print_order_obligations(world)
     t0 = time.time()
     repo = os.environ.get("VERIF_REPO", "/repo")
     env = dict(os.environ)
